@@ -10,6 +10,13 @@ From GoRes Require Import Sched.Access Sched.AccessTable Sched.AccessLTS Sched.P
 Theorem lockset_discipline : forallb loc_ok access_table = true.
 Proof. exact lockset_discipline_pf. Qed.
 
+(* (1b) lock granularity: the atomic steps LSect / LEnq of the scheduler LTS (on which C01-C03 and the
+   happens-before theorem below rest) are single critical sections of s.mu in the code: the worker tests the
+   work item's queue and removes the rwork entry under one hold of the lock; runWith tests the queue for nil,
+   looks up rwork and appends/registers under one hold of the lock *)
+Theorem lock_granularity : granularity_ok access_table = true.
+Proof. exact lock_granularity_pf. Qed.
+
 (* (2) in every execution that respects the mutex, any two accesses made while holding it are
    ordered by happens-before (program order + unlock->lock), whatever the threads and locations *)
 Theorem locked_accesses_ordered : forall tr i j t1 t2 l1 l2 w1 w2,
